@@ -254,8 +254,6 @@ def r10_3(ctx, m):
     if pidx is None or pidx >= len(call.args):
         raise AnalysisError("R10.3", cf.where(call), "cannot map the index path argument")
     iv = norm(call.args[pidx])
-    asg = [st for st in walk_stmts(cf.node.body) if isinstance(st, ast.Assign) and norm(st.targets[0]) == iv]
-    paths = enum_paths(cf.node.body, rule="R10.3", where=cf.where())
     out_param = None
     for p_ in cf.params:
         if "out" in p_ and "ind" not in p_:
@@ -263,17 +261,40 @@ def r10_3(ctx, m):
     ind_param = next((p_ for p_ in cf.params if "ind" in p_), None)
     if out_param is None or ind_param is None:
         raise AnalysisError("R10.3", cf.where(), "cannot identify the output / index-path parameters of the entry point")
+    # where is the index path decided: in the entry point itself, or in a helper whose returned tuple is unpacked into it
+    decider, ret_pos = cf, None
+    for st in walk_stmts(cf.node.body):
+        if isinstance(st, ast.Assign) and isinstance(st.targets[0], ast.Tuple) and isinstance(st.value, ast.Call) and iv in [norm(t) for t in st.targets[0].elts]:
+            h = repo.resolve_call(cf, st.value)
+            if h is not None:
+                amap = {norm(a): p_ for p_, a in zip(h.params, st.value.args)}
+                if out_param in amap and ind_param in amap:
+                    decider, ret_pos = h, [norm(t) for t in st.targets[0].elts].index(iv)
+                    out_param, ind_param = amap[out_param], amap[ind_param]
+                    ctx.analysed_func(h)
+    paths = enum_paths(decider.node.body, rule="R10.3", where=decider.where())
     bad = None
+    n_dec = 0
     for p in paths:
         val = None
         for e in p.events:
             if e.kind == "stmt" and isinstance(e.node, ast.Assign) and norm(e.node.targets[0]) == iv:
                 val = norm(e.node.value)
+        if ret_pos is not None:
+            if p.term != "return" or not isinstance(p.term_node.value, ast.Tuple):
+                continue
+            rv = p.term_node.value.elts[ret_pos]
+            val = norm(rv)
+            if isinstance(rv, ast.Name):
+                for e in p.events:
+                    if e.kind == "stmt" and isinstance(e.node, ast.Assign) and norm(e.node.targets[0]) == rv.id:
+                        val = norm(e.node.value)
         out_none = any(e.kind == "test" and canon(e) == (f"{out_param} is None", True) for e in p.events)
         out_given = any(e.kind == "test" and canon(e) == (f"{out_param} is None", False) for e in p.events)
         ind_given = any(e.kind == "test" and ((norm(e.node) == ind_param and e.pol) or canon(e) == (f"{ind_param} is None", False)) for e in p.events)
         ind_absent = any(e.kind == "test" and ((norm(e.node) == ind_param and not e.pol) or canon(e) == (f"{ind_param} is None", True)) for e in p.events)
         if out_given:
+            n_dec += 1
             if ind_given and val != ind_param:
                 bad = (p, f"--outind given but index path is `{val}`")
             if ind_absent and val not in (f"{out_param} + '.gsi'", f"f'{{{out_param}}}.gsi'"):
@@ -282,7 +303,9 @@ def r10_3(ctx, m):
                 bad = (p, "index path not decided on a path with an output file")
         if out_none and val not in ("None", None):
             bad = (p, f"no output file but index path `{val}`")
-    ctx.check(bad is None, "R10.3", cf.where(), "whenever an output path is given the index path is --outind, or the output path + '.gsi'", key_of(cf, f"index-path:{bad[1] if bad else ''}"), **({"path": bad[0].show(), "why": bad[1]} if bad else {}))
+    if n_dec == 0 and bad is None:
+        raise AnalysisError("R10.3", decider.where(), "cannot find where the index path is decided (no path tests the output argument)")
+    ctx.check(bad is None, "R10.3", decider.where(), "whenever an output path is given the index path is --outind, or the output path + '.gsi'", key_of(decider, f"index-path:{bad[1] if bad else ''}"), deciding_paths=n_dec, **({"path": bad[0].show(), "why": bad[1]} if bad else {}))
     # the dict handed over creates [None, None] entries on first access
     didx = f.params.index(m.idx_dict) if m.idx_dict in f.params else None
     if didx is not None and didx < len(call.args):
